@@ -128,7 +128,25 @@ def unary(np_, op, a):
 
 
 def inplace(np_, op, a, b):
-    raise Untranslatable("in-place operator on symbolic-extent array")
+    """a op= b: the element-wise result written back into a (same_kind casting rule asked from the installed numpy)"""
+    res = binary(np_, op, a, b)
+    if not isinstance(res, TArr) or len(res.shape) != len(a.shape):
+        raise Untranslatable("in-place operator on symbolic-extent array (result of another shape)")
+    if not _np.can_cast(res.dtype, a.dtype, casting="same_kind"):
+        raise Raised(TypeError(f"Cannot cast ufunc output from {res.dtype!r} to {a.dtype!r} with casting rule 'same_kind'"))
+    ctx = np_.I.ctx
+    same = z3.And(*[term_of(raw(p), "int") == term_of(raw(q), "int") for p, q in zip(a.shape, res.shape)])
+    if not ctx.branch(same):
+        raise Raised(ValueError("operands could not be broadcast together (in-place)"))
+    if res.dtype.kind == a.dtype.kind:
+        a.term = res.term
+    elif a.dtype.kind == "f" and res.dtype.kind in "iu":
+        idx = fresh_index(np_, a.ndim)
+        a.term = z3.Lambda(idx, z3.ToReal(z3.Select(res.term, *idx)))
+    else:
+        raise Untranslatable("in-place operator on symbolic-extent array (narrowing cast)")
+    a.slice_of = None
+    return a
 
 
 def norm_int_index(np_, i, n):
